@@ -45,7 +45,13 @@ def to_native(ctx, v, depth=0):
         return tuple(to_native(ctx, x, depth + 1) for x in v)
     if isinstance(v, Ext):
         return v.obj
-    if isinstance(v, (ClassVal, FuncVal, BoundMethod, SpecFn)):
+    if isinstance(v, (FuncVal, BoundMethod)):
+        # callback into the interpreted program (e.g. the replacement function of re.sub)
+        def bridge(*a, **k):
+            r = ctx.call(v, [from_native(ctx, x) for x in a], {kk: from_native(ctx, x) for kk, x in k.items()})
+            return to_native(ctx, r)
+        return bridge
+    if isinstance(v, (ClassVal, SpecFn)):
         raise U()("repo code object passed to external function")
     if isinstance(v, EnumMember):
         raise U()("enum member passed to external function")
@@ -857,6 +863,8 @@ def get_attr(ctx, o, name, default=NotImplemented):
             return a
         if name == "__name__":
             return o.name
+        if name == "__subclasses__":
+            return SpecFn("__subclasses__", lambda cx, a, k, _o=o: cx.new_list([c for c in cx.world.classes if _o in c.bases]))
         return missing()
     if isinstance(o, EnumMember):
         if name == "name":
@@ -1525,3 +1533,67 @@ model(np.arcsin)(_uf1("arcsin"))
 model(np.arccos)(_uf1("arccos"))
 model(np.arctan)(_uf1("arctan"))
 model(np.cbrt)(_uf1("cbrt"))
+
+
+# ---- reductions over lists that hold repo objects or symbolic scalars -------------------------------------------
+def _needs_model(ctx, items):
+    return items is not None and (any_sym(ctx, items) or any(isinstance(x, Ref) for x in items))
+
+
+@model(np.sum)
+def m_np_sum(ctx, args, kw):
+    items = _as_items(ctx, args[0])
+    if not _needs_model(ctx, items):
+        return NotImplemented
+    ctx.assumed.add("np.sum(list): left fold of + over the elements")
+    if not items:
+        return 0.0
+    acc = items[0]
+    for x in items[1:]:
+        acc = ctx.binop(ast.Add(), acc, x)
+    return acc
+
+
+@model(np.average)
+def m_np_average(ctx, args, kw):
+    items = _as_items(ctx, args[0])
+    w = kw.get("weights")
+    witems = _as_items(ctx, w) if w is not None else None
+    if not _needs_model(ctx, items) and not (witems is not None and _needs_model(ctx, witems)):
+        return NotImplemented
+    ctx.assumed.add("np.average(a, weights=w): sum(a_i*w_i)/sum(w_i) (sum(a_i)/len(a) without weights)")
+    if not items:
+        ctx.raise_exc("ZeroDivisionError", ("average of empty list",))
+    if witems is None:
+        return ctx.binop(ast.Div(), m_np_sum(ctx, [args[0]], {}), len(items))
+    if len(witems) != len(items):
+        ctx.raise_exc("TypeError", ("Length of weights not compatible with specified axis.",))
+    num = None
+    den = None
+    for x, wi in zip(items, witems):
+        t = ctx.binop(ast.Mult(), x, wi)
+        num = t if num is None else ctx.binop(ast.Add(), num, t)
+        den = wi if den is None else ctx.binop(ast.Add(), den, wi)
+    return ctx.binop(ast.Div(), num, den)
+
+
+@model(np.divide)
+def m_np_divide(ctx, args, kw):
+    a, b = _as_items(ctx, args[0]), _as_items(ctx, args[1])
+    if a is None or b is None or not (_needs_model(ctx, a) or _needs_model(ctx, b)):
+        return NotImplemented
+    ctx.assumed.add("np.divide(a, b): element-wise quotient")
+    return _mk_array(ctx, [ctx.binop(ast.Div(), x, y) for x, y in zip(a, b)])
+
+
+@model(np.argmax)
+def m_np_argmax(ctx, args, kw):
+    items = _as_items(ctx, args[0])
+    if not _needs_model(ctx, items):
+        return NotImplemented
+    ctx.assumed.add("np.argmax(list): index of the first maximal element")
+    best = 0
+    for i in range(1, len(items)):
+        if ctx.truthy(ctx.compare(ast.Gt(), items[i], items[best])):
+            best = i
+    return best
